@@ -196,7 +196,7 @@ fn main() {
 
     let histo = Histo::new();
     // second space first (fixed share of the budget): shapes with one or two non-primitive ops
-    let npo_cov = if ctx.opt("family").is_some() { json!(null) } else { npo::run(&ctx, &report, &histo, if ctx.quick() { 0.22 } else { 0.45 }) };
+    let npo_cov = if ctx.opt("family").is_some() { json!(null) } else { npo::run(&ctx, &report, &histo, if ctx.quick() { 0.36 } else { 0.45 }) };
 
     let mut fams = families_scaled(if ctx.quick() { 1 } else { 2 });
     if let Some(f) = ctx.opt("family") {
@@ -302,5 +302,6 @@ fn main() {
         "a budgeted subset of audit-clean programs is cross-checked by p3_lookup::debug_util::check_lookups on honest traces".into(),
         "npo shape space (KoalaBear D=4): Const/Public/ALU ports from the final preprocessed matrices; Poseidon2 ports = in_idx with -(in_ctl)(1-merkle), out_idx with the signed out_ctl, recompose ports = [idx, mult] pairs, all from the final per-op columns the prover commits; coefficient inputs of PLAIN recompose rows never reach the bus by design (C12's subject) and are not counted as relation ports".into(),
         "npo shape space: honest prove+verify (with p3 check_lookups) runs on the first shape of every distinct census signature (same interaction structure), not on every shape".into(),
+        "npo shape space, Merkle-mode rows: the Poseidon2 ports are evaluated on the FINAL preprocessed matrix of the Poseidon2 AIR (real + padding rows); the accumulator send of row r is -(mmcs_merkle_flag(r) * new_start(r+1 mod height)), i.e. next real row / first padding row / wrap-around to row 0; explicit input limbs of Merkle rows have multiplicity 0 by construction of the AIR (root cause R4, recorded under C04) and are listed as p2.in.merkle_unread mentions, not as violations of this check; for Merkle shapes the proof-selection signature also contains the row pattern of the Poseidon2 table, and an honest run that the runner accepts but that fails to prove/verify is a violation keyed npo:merkle:honest_run_fails:<what>|<class>".into(),
     ], &report);
 }
